@@ -127,7 +127,7 @@ def resolve(evs, v):
     return v
 
 
-BLANK = {"fd": -1, "n": 0, "data": [], "rax": 0, "memfds": [], "userhook": False, "srcok": True, "dstok": True, "got": [], "before": []}
+BLANK = {"fd": -1, "n": 0, "data": [], "rax": 0, "memfds": [], "userhook": False, "srcok": True, "dstroom": 0, "dstmapped": False, "got": [], "before": []}
 
 
 def project(scenarios, events, rep):
@@ -171,11 +171,12 @@ def project(scenarios, events, rep):
                         t["data"] = pc["data"]
                         t["srcok"] = DATA <= pc["src"] and pc["src"] + pc["n"] <= DATA + 0x200
                     else:
-                        inside = DATA <= pc["dst"] and pc["dst"] + pc["n"] <= DATA + 0x200
-                        t["dstok"] = inside
-                        if inside:
-                            t["got"] = area_bytes(o, pc["dst"], pc["n"]) or []
-                            t["before"] = area_bytes(prev, pc["dst"], pc["n"]) or []
+                        room = min(pc["n"], DATA + 0x200 - pc["dst"]) if DATA <= pc["dst"] < DATA + 0x200 else 0
+                        t["dstroom"] = room
+                        t["dstmapped"] = DATA <= pc["dst"] < DATA + 0x200
+                        if room:
+                            t["got"] = area_bytes(o, pc["dst"], room) or []
+                            t["before"] = area_bytes(prev, pc["dst"], room) or []
             if "pipe_ends" in o:
                 prev = o
             res.append(t)
